@@ -33,9 +33,10 @@ const basePrelude = `
 (declare-fun bjoin (SL Str) Str)
 (declare-fun bsplit (Str Str) SL)
 (declare-fun bsplitn (Str Str Int) SL)
-(define-fun-rec sllen ((l SL)) Int (ite ((_ is snil) l) 0 (+ 1 (sllen (stl l)))))
-(define-fun-rec slnth ((l SL) (i Int)) Str
-  (ite ((_ is snil) l) str_default (ite (= i 0) (shd l) (slnth (stl l) (- i 1)))))
+(declare-fun ix (Int Int) Int)
+(assert (forall ((a Int) (b Int)) (! (= (ix a b) (+ a b)) :pattern ((ix a b)))))
+(declare-fun sllen (SL) Int)
+(declare-fun slnth (SL Int) Str)
 (define-fun go_div ((a Int) (b Int)) Int
   (ite (>= a 0) (ite (> b 0) (div a b) (- (div a (- b))))
                 (ite (> b 0) (- (div (- a) b)) (div (- a) (- b)))))
